@@ -466,6 +466,9 @@ def _byte_length(fb, v, depth=0):
     if v.fn == "std::iter::Iterator::sum" and len(v.args) == 1:
         m = rel.canon(v.args[0])
         # chars().take_while(..).map(|c| c.len_utf8()).sum()
+        if isinstance(m, App) and m.fn == "std::iter::Iterator::map" and len(m.args) == 2 and "::chars(" in rel.cstr(m.args[0]) and not isinstance(m.args[1], Closure):
+            # `.map(char::len_utf8)`: the function item itself
+            return rel.cstr(m.args[1]).endswith("len_utf8") or "len_utf8" in show(m.args[1])
         if isinstance(m, App) and m.fn == "std::iter::Iterator::map" and len(m.args) == 2 and isinstance(m.args[1], Closure) and "::chars(" in rel.cstr(m.args[0]):
             cb = fb.bodies.get(m.args[1].path)
             if cb is not None:
